@@ -156,7 +156,12 @@ class ProxyIO:
     def read(self, nbytes: int) -> bytes:
         # TODO(typing): The IO protocol requires bytes here but ChannelFileRead
         # returns str.
-        return self.iochan_file.read(nbytes)  # type: ignore[return-value]
+        try:
+            return self.iochan_file.read(nbytes)  # type: ignore[return-value]
+        except self.iochan.RemoteError as exc:
+            # the forwarder failed (it could not write to the sub any more):
+            # for this gateway the connection is lost like on any other IO
+            raise EOFError("proxy io failed: %s" % (exc,)) from exc
 
     def write(self, data: bytes) -> None:
         self.iochan.send(data)
